@@ -2,14 +2,14 @@
 
 use super::c05::{mutate, Mutation};
 use crate::common::*;
-use crate::engine::{bx, hash_of, GenPart, Property, Stats, Tier};
+use crate::engine::{bx, hash_of, EnumPart, GenPart, Property, Stats, Tier};
 use crate::oracle::refcodec::{self, Parsed};
 use crate::oracle::refrx::{Eff, RefRx, Seen};
 use dvb_gse_rust::gse_decap::{DecapStatus, GseDecapMemory};
 use dvb_gse_rust::gse_encap::{ContextFrag, EncapStatus};
 use proptest::prelude::*;
 use serde::{Deserialize, Serialize};
-use serde_json::json;
+use serde_json::{json, Value};
 use std::collections::HashMap;
 
 // ---------------------------------------------------------------------------------------------
@@ -454,6 +454,61 @@ fn check_b(c: &CaseB, st: &mut Stats) -> Result<(), String> {
     Ok(())
 }
 
+// ---------------------------------------------------------------------------------------------
+// part a, enumerated: every history up to a depth over a fixed alphabet
+
+fn enum_alphabet() -> [Op; 18] {
+    let send = |lab: u8, outcome: Outcome, ext: bool, frag_id: u8| Op::Send { lab, outcome, ext, frag_id, len: 0 };
+    [
+        send(0, Outcome::Complete, false, 0),
+        send(1, Outcome::Complete, false, 0),
+        send(2, Outcome::Complete, false, 0),
+        send(5, Outcome::Complete, false, 0),
+        send(6, Outcome::Complete, false, 0),
+        send(0, Outcome::Fragment, false, 0),
+        send(1, Outcome::Fragment, false, 1),
+        send(6, Outcome::Fragment, false, 2),
+        // a 10-byte PDU whose first fragment carried 3 bytes is finished by one 14-byte buffer
+        Op::Cont { k: 0, n: 7 },
+        Op::Cont { k: u16::MAX, n: 7 },
+        Op::ResetBoth,
+        Op::Disable,
+        Op::Enable,
+        Op::Max(1),
+        send(0, Outcome::FailSmallBuffer, false, 0),
+        send(0, Outcome::Complete, true, 0),
+        send(0, Outcome::FailPduTooLong, false, 0),
+        send(0, Outcome::Fragment, true, 3),
+    ]
+}
+
+fn enum_depth(t: Tier) -> u32 {
+    t.pick(5, 7)
+}
+
+fn enum_size(t: Tier) -> u64 {
+    (1..=enum_depth(t)).map(|k| 18u64.pow(k)).sum()
+}
+
+fn enum_case(t: Tier, mut i: u64) -> CaseA {
+    let alpha = enum_alphabet();
+    let mut k = 1;
+    while k < enum_depth(t) && i >= 18u64.pow(k) {
+        i -= 18u64.pow(k);
+        k += 1;
+    }
+    let mut ops = Vec::with_capacity(k as usize);
+    for _ in 0..k {
+        ops.push(alpha[(i % 18) as usize]);
+        i /= 18;
+    }
+    CaseA { ops }
+}
+
+fn check_enum(i: u64, st: &mut Stats) -> Result<(), String> {
+    check_a(&enum_case(st.tier, i), st)
+}
+
 #[allow(dead_code)]
 fn _unused(_: HashMap<u8, u8>) {}
 
@@ -463,6 +518,15 @@ pub fn property() -> Property {
         rule: "part a (lock step): histories of up to 40/100 operations over {encap / encap_ext with a 5-label alphabet, broadcast or explicit re-use, steered to complete / first fragment / fail (buffer too small, PDU too long, bad protocol type, zero label); encap_frag continuation of any open train; reset of both sides; disable; enable; enable-with-max}; every packet the sender reported as produced is fed in order to a receiver with ample storage; each delivered PDU is matched to the sender's record by a content tag and must carry the label passed (explicit re-use: the label in force on the wire), and every completely emitted PDU with an explicit or broadcast label must be delivered exactly once. part b (receiver alone): sequences of valid, rejected (unknown mandatory extension, zero label, no storage) and mutated start/complete packets, resets, storage exhaustion; whenever decap accepts a re-use packet its label must equal the reference effective-label register computed from the received bytes (not judged after malformed input). non-trivial = (a) a failed call or a settings change between two successful calls with equal labels, or a re-use first fragment; (b) a resolution judged after >= 2 label changes",
         assumptions: &["a newer first fragment on a frag id abandons older trains of that id (the harness stops continuing them)", "after anything RefCodec calls malformed the reference does not claim to know the label in force"],
         parts: vec![
+            Box::new(EnumPart {
+                name: "lock-step-all-histories",
+                rule: "every history of 1..=5 (thorough 1..=7) operations over 18 operations: complete packets to two 6-byte labels, a 3-byte label, broadcast, explicit re-use; first fragments (two labels, explicit re-use, one with an extension) on distinct frag ids; finish the oldest / the newest open train; reset both; disable; enable; max 1; failing calls (small buffer, PDU too long); a complete packet with an extension. exhaustive for that alphabet and depth; same oracle as lock-step",
+                size: enum_size,
+                exhaustive: |_| true,
+                check: check_enum,
+                describe: |t, i| serde_json::to_value(enum_case(t, i)).unwrap_or(Value::Null),
+                required_classes: &["substituted", "failed-call", "failed-call-between-equal-labels", "settings-change-between-equal-labels", "re-use-first-fragment"],
+            }),
             Box::new(GenPart {
                 name: "lock-step",
                 rule: "see property rule",
